@@ -11,11 +11,14 @@ import random
 from fractions import Fraction
 
 from harness import enumhs as E
+from harness import enumhs_rec as R
 
 CASE_TIMEOUT = {"quick": 150, "thorough": 600}
 
 
 def gen(rng, i, tier):
+    if R.enabled("C03-F3") and i % 16 == 7:          # recursive grammars: region of findings C03-F3 / C03-F4
+        return R.gen_rec(random.Random(rng.randrange(1 << 30) ^ i), tier)
     c = E.gen_case(rng, i, tier)
     if rng.random() < 0.25:
         c["prefix"] = rng.choice([1, 2, 3, 5, 8, 13, 30, 100])     # stop early: every prefix length
@@ -23,6 +26,8 @@ def gen(rng, i, tier):
 
 
 def shrink(case):
+    if case.get("family") == "rec":
+        return iter(())
     return E.shrink_case(case)
 
 
@@ -37,6 +42,8 @@ def blt(a, b):
 
 
 def check(case, M):
+    if case.get("family") == "rec":
+        return R.check_rec(case, M, "C03")
     tier = case.get("tier", "quick")
     if case.get("prefix"):
         case = dict(case)
